@@ -412,3 +412,49 @@ func blanksNormalised(helper *ssa.Function) string {
 	}
 	return ""
 }
+
+// LineEndsAgree (R9.1n): the comment pre-pass works line by line, and a trailing comment is cut off up to the end of
+// the line. Its lines are the pieces between its separator (pp.LineSeparator); the lexer's lines end at every
+// alternative of NEWLINE. A character that ends a line for the lexer all by itself (and is not a blank) but does
+// not separate lines for the pre-pass makes the cut run across the lexer's lines: what is written there is deleted
+// before the parser sees it, and a structural violation in it is never reported.
+func LineEndsAgree(r *oblig.Report, rule string, lg *g4.Grammar, pp *PrePass) {
+	if lg == nil || pp == nil || pp.LineSeparator == "" {
+		r.Unknown(rule, "line-ends:anchor", "-", "lexer grammar or pre-pass separator not available")
+		return
+	}
+	lits := func(name string) map[rune]bool {
+		out := map[rune]bool{}
+		if rl := lg.ByName[name]; rl != nil {
+			g4.Walk(rl.Body, func(n g4.Node) {
+				if l, ok := n.(*g4.Lit); ok {
+					for _, c := range l.S {
+						out[c] = true
+					}
+				}
+			})
+		}
+		return out
+	}
+	nl, ws := lits("NEWLINE"), lits("WHITESPACE")
+	if len(nl) == 0 {
+		r.Unknown(rule, "line-ends:anchor", "OpenFGALexer.g4", "lexer rule NEWLINE has no literal")
+		return
+	}
+	var cs []string
+	for c := range nl {
+		cs = append(cs, string(c))
+	}
+	sort.Strings(cs)
+	for _, c := range cs {
+		construct := fmt.Sprintf("line-ends:%q", c)
+		switch {
+		case strings.Contains(pp.LineSeparator, c):
+			r.OK(rule, construct, "OpenFGALexer.g4", "separator", "the pre-pass splits there too")
+		case ws[[]rune(c)[0]]:
+			r.OK(rule, construct, "OpenFGALexer.g4", "blank", "also a blank of the lexer: inside a line it is lexed as whitespace")
+		default:
+			r.Bad(rule, construct, "OpenFGALexer.g4", fmt.Sprintf("the lexer ends a line at a lone %q (NEWLINE), the pre-pass splits only at %q: a trailing ' #' comment on a line that ends in %q is cut off up to the next %q, together with every line of the lexer in between — duplicate relations, mixed operators, a second header written there are accepted unseen", c, pp.LineSeparator, c, pp.LineSeparator))
+		}
+	}
+}
